@@ -105,13 +105,22 @@ LEVEL_TEXT = ("partial: Lean 4 theorems over R about executable models of the ap
               "stored reduction is within 1 um / 0.1 cc of the reduction at the adjusted coordinates (the proof needs the third test "
               "of a2adf726 to be the last of the regenerated list); (iii) what the modelled Acord2 leaves with nothing missing is the "
               "true configuration (Acord feeds the fixed point), and a geometric 2x2 regular instance (two distances to fixed points). "
-              "The adjustment and refine_approx_coordinates enter the loop model as parameters.")
+              "The adjustment and refine_approx_coordinates enter the loop model as parameters; (r10, working tree) the adjustment is "
+              "instantiated with project_equations o netSolve (C06_refine_adjustment_fixed_point_pipeline: the loop over the executed "
+              "pipeline returns with 0 iterations; complete for networks without from_dh/to_dh - PE.Ob carries value() only, with dh "
+              "the hypotheses hview / hsub on the presentation map mk are not discharged; refine_approx_coordinates still a parameter); "
+              "the Acord bridge is stated on the linearisation's network record (Lin.Net), not on PE.Net, and is not composed with it; "
+              "svd is excluded from "
+              "C06_exact_network_solution_zero; no bridge theorem Gen.TestLin.<class> = GN.pol<Class> (both readings are executed); "
+              "nothing is proved about the stopping test away from the fixed point. 89 theorems in the four Props files (88 committed + 1 of r10, working tree).")
 LEVEL_NOTE = ("Theorems are about exact real arithmetic; libm and rounding are not modelled. The end-to-end statement "
               "(adjusted = true, zero residuals, nothing removed, for every algorithm) is explored, not proved; "
               "tolerances used by the oracle: 1e-6 m when exact approximate coordinates are supplied, 1e-5 m otherwise "
               "(the program stops iterating at 0.0005 mm positional misclosure), 1e-4 m (xy) / 3e-4 m (z) when from_dh/to_dh "
               "are present (the program refines the from_dh/to_dh reductions to 0.001 mm / 0.1 cc, at the approximate and, since "
-              "a2adf726, at the adjusted coordinates: residuals of such observations get +1e-6 m / +1e-5 gon); tol-abs is raised with the "
+              "a2adf726, at the adjusted coordinates: residuals of such observations get +1e-6 m / +1e-5 gon; finding C06-stale-dh-reduction is "
+              "FIXED by a2adf726, its allowance is removed, regression corpus/C06/stale-dh-reduction.gkf, invariant "
+              "C06_refine_adjustment_reductions_within_tolerance); the only KNOWN finding is C06-F21 (solve_insertion); tol-abs is raised with the "
               "perturbation so that the documented gross-error gate is not what is being tested. A perturbation that is large relative to "
               "the sight lengths (5 m on 24 m sights, a zenith angle with to_dh 5.5 m) can exhaust the 5 linearisation iterations "
               "gama-local allows and end 0.1 m off: recorded in corpus/C06/pending/traverse-perturbed5-bound-reached.*, outside the "
@@ -138,9 +147,13 @@ MODELLED = ["libm sin/cos/atan2/acos/sqrt (Float primitives of the Lean runtime 
             "without a model produce xy candidates)",
             "Observation::norm_rad_val (fmod) as one conditional +-2pi, exact for the values the code hands to it",
             "Orientation::add_all per run of one cluster (the flat observation list is grouped by cluster)",
-            "PointID::operator< (C07's model Gama/Model/PointId.lean, used by the acord driver)",
-            "PointData::xNorthAngle (C05's hand-written model Lin.xNorthAngle, used by the acord driver)",
-            "least-squares solve between two refine steps (C01)"]
+            "PointID::operator< (Gama/Gen/PointIdCmp.lean, regenerated from pointid.cpp by C07's tools/gen/c07_pointid.py - on the C07 check, "
+            "not by this plugin's translate; PointID::init is the hand model Model/PointIdBase.lean; used by the acord driver; "
+            "Tri / StrictTotal of the Acord theorems are not instantiated for PointId.lt)",
+            "PointData::xNorthAngle (C05's hand-written model Lin.xNorthAngle, equal to the regenerated Gen.XNorth table by "
+            "C05_xnorth_models_agree; used by the acord driver)",
+            "least-squares solve between two refine steps (C01; r10, working tree: E.adjust of RA.Env instantiated with projectEquations o netSolve for networks without from_dh/to_dh, "
+            "C06PL2.peEnv; E.refineApprox not instantiated)"]
 ASSUMPTIONS = ["bearing and direction values lie in [0, 2pi) (one pass of the unbounded wrap loops suffices)",
                "AcordVector::prepare: every Vectors cluster fills all three buffer slots before the first complete triple "
                "(the buffer is indeterminate in the C++ until then)",
@@ -157,7 +170,9 @@ ASSUMPTIONS = ["bearing and direction values lie in [0, 2pi) (one pass of the un
                "refine_approx_coordinates are parameters of the loop model (RA.Env); `if (changed) IS->update_residuals()` is "
                "represented by the adjustment being a function of the current state (caching: C04)",
                "C06_exact_network_solution_zero: no revised observation names one point in two roles (NoAlias, as C01); the joint "
-               "non-vacuity instance over R is the empty network (the evaluated PE o netSolve witness is over Q)",
+               "non-vacuity instance over R (r10, working tree) is the levelling network Ex.netWexact with a correlated cluster, for cholesky and "
+               "gso (existence of the answer by C02_net_answered_iff_resolves, no solver run evaluated); envelope not witnessed; no joint "
+               "instance with a distance / direction row",
                "C06I.ExactCl: two directions (azimuths) observed at one point go to targets >= 1e-6 apart and not in one direction",
                "intersection stream: point ids of an observation are distinct; the static small-angle limit starts at 0.15"]
 
